@@ -2,6 +2,7 @@
 C06 — Output paths are unique, file-system safe and confined to the destination.
 -/
 import Smpl.Model.Names
+import Smpl.Lemmas.Dedupe
 
 namespace Smpl.Props.C06
 open Smpl Smpl.Names
@@ -36,5 +37,122 @@ theorem C06_export_head (name : Name) (isFile : Bool) :
       split
       · exact ⟨c3, r3 ++ ['0'], rfl, hw3⟩
       · exact ⟨c3, r3, rfl, hw3⟩
+
+/-! ## uniqueness -/
+
+/-- **No two siblings get the same name.** Whatever candidate names the siblings have (duplicates,
+names equal after sanitising, names that collide with a generated `(n)` suffix), the names
+assigned by the de-duplication are pairwise distinct, one per sibling. -/
+theorem C06_unique (cands : List Name) (res : List Name) (h : dedupe cands = .ok res) :
+    res.Nodup ∧ res.length = cands.length :=
+  dedupe_nodup cands res h
+
+/-- premises satisfiable, statement non-trivial: two groups competing for `A (2)`. -/
+example : (match dedupe ["A".toList, "A".toList, "A (2)".toList, "A (2)".toList] with
+    | .ok r => r == ["A".toList, "A (3)".toList, "A (2)".toList, "A (2) (2)".toList]
+    | .error _ => false) = true := by decide
+
+/-! ## character set -/
+
+theorem subRuns_keep (keep : Char → Bool) (hsp : keep ' ' = true) (s : Name) :
+    ∀ c ∈ subRuns keep s, keep c = true := by
+  induction s using subRuns.induct keep with
+  | case1 => intro c hc; simp [subRuns] at hc
+  | case2 c cs hk ih =>
+    intro x hx
+    rw [subRuns] at hx
+    simp only [hk, if_true, List.mem_cons] at hx
+    rcases hx with rfl | hx
+    · exact hk
+    · exact ih x hx
+  | case3 c cs hk ih =>
+    intro x hx
+    rw [subRuns] at hx
+    simp only [hk, Bool.false_eq_true, if_false, List.mem_cons] at hx
+    rcases hx with rfl | hx
+    · exact hsp
+    · exact ih x hx
+
+theorem mem_strip {c : Char} {s : Name} (h : c ∈ strip s) : c ∈ s := by
+  unfold strip stripL at h
+  have h1 := List.mem_reverse.mp h
+  have h2 := (List.dropWhile_sublist _).mem h1
+  have h3 := List.mem_reverse.mp h2
+  exact (List.dropWhile_sublist _).mem h3
+
+theorem mem_dropDot {c : Char} {r : Name} (h : c ∈ dropDot r) : c ∈ r := by
+  unfold dropDot at h
+  split at h
+  · exact List.mem_cons_of_mem _ ((List.dropWhile_sublist _).mem h)
+  · exact h
+
+theorem mem_safeEnding {c : Char} {s : Name} (h : c ∈ safeEnding s) : c ∈ s := by
+  unfold safeEnding at h
+  simp only at h
+  split at h
+  · exact (List.take_sublist _ _).mem h
+  · have h1 := mem_dropDot (List.mem_reverse.mp h)
+    exact List.mem_reverse.mp ((List.dropWhile_sublist _).mem h1)
+
+/-- **Every character of an export name is a word character, blank, `-`, `.` or `#`** — whatever
+the stored name contains (path separators, quotes, control characters, `..`). -/
+theorem C06_charset (name : Name) (isFile : Bool) :
+    ∀ c ∈ makeExportName name isFile, exportKeep c = true := by
+  have hbase : ∀ c ∈ expBase name, exportKeep c = true := by
+    intro c hc
+    exact subRuns_keep exportKeep (by decide) name c (mem_strip hc)
+  have hend : ∀ c ∈ expEnding (expBase name), exportKeep c = true := by
+    intro c hc
+    unfold expEnding at hc
+    split at hc
+    · exact hbase c hc
+    · exact hbase c (mem_safeEnding hc)
+  have hne : ∀ c ∈ expNonEmpty (expEnding (expBase name)), exportKeep c = true := by
+    intro c hc
+    unfold expNonEmpty at hc
+    split at hc
+    · simp at hc; subst hc; decide
+    · exact hend c hc
+  have hwh : ∀ c ∈ expWordHead (expNonEmpty (expEnding (expBase name))), exportKeep c = true := by
+    intro c hc
+    generalize expNonEmpty (expEnding (expBase name)) = e at hne hc
+    cases e with
+    | nil => simp [expWordHead] at hc
+    | cons a as =>
+      simp only [expWordHead] at hc
+      split at hc
+      · exact hne c hc
+      · rcases List.mem_cons.mp hc with rfl | hc
+        · decide
+        · exact hne c hc
+  intro c hc
+  unfold makeExportName expDirTail at hc
+  split at hc
+  · exact hwh c hc
+  · split at hc
+    · split at hc
+      · rcases List.mem_append.mp hc with hc | hc
+        · exact hwh c hc
+        · simp at hc; subst hc; decide
+      · exact hwh c hc
+    · exact hwh c hc
+
+/-- a directory component never ends in `.` or `-`. -/
+theorem C06_dir_tail (name : Name) (c : Char)
+    (h : (makeExportName name false).getLast? = some c) : c ≠ '.' ∧ c ≠ '-' := by
+  unfold makeExportName expDirTail at h
+  simp only [Bool.false_eq_true, if_false] at h
+  generalize expWordHead (expNonEmpty (expEnding (expBase name))) = e at h
+  cases hl : e.getLast? with
+  | none => simp only [hl] at h; cases h
+  | some l =>
+    simp only [hl] at h
+    split at h
+    · simp at h; subst h; decide
+    · rename_i hne
+      rw [hl] at h
+      cases h
+      simp at hne
+      exact ⟨hne.1, hne.2⟩
 
 end Smpl.Props.C06
